@@ -289,6 +289,45 @@ func Run(r *ev.Run) {
 			}
 			jobs = append(jobs, job{mutation{b, "extension-removed-after-sealing", 0}, h2.Record(), keys})
 		}
+		// fields of the outer hello OUTSIDE the extensions block edited after sealing, with all length prefixes kept consistent: one
+		// octet appended to cipher_suites (an odd-length vector: a parser that keeps only whole suites drops it from what it
+		// authenticates), a second suite appended, one compression method appended, one octet appended to the session id
+		{
+			for _, ed := range []string{"cipher-suites-odd-octet", "cipher-suites-one-more-suite", "compression-one-more-method", "session-id-one-more-octet"} {
+				msg := slices.Clone(built.Outer.Msg())
+				// handshake header(4) version(2) random(32) sid<1> suites<2> compression<1> extensions<2>
+				p := 4 + 2 + 32
+				sidLen := int(msg[p])
+				suitesAt := p + 1 + sidLen
+				suitesLen := int(msg[suitesAt])<<8 | int(msg[suitesAt+1])
+				compAt := suitesAt + 2 + suitesLen
+				compLen := int(msg[compAt])
+				var at, n int
+				var add []byte
+				switch ed {
+				case "cipher-suites-odd-octet":
+					at, n, add = suitesAt+2+suitesLen, 1, []byte{0x13}
+					msg[suitesAt], msg[suitesAt+1] = byte((suitesLen+1)>>8), byte(suitesLen+1)
+				case "cipher-suites-one-more-suite":
+					at, n, add = suitesAt+2+suitesLen, 2, []byte{0x13, 0x03}
+					msg[suitesAt], msg[suitesAt+1] = byte((suitesLen+2)>>8), byte(suitesLen+2)
+				case "compression-one-more-method":
+					at, n, add = compAt+1+compLen, 1, []byte{1}
+					msg[compAt] = byte(compLen + 1)
+				case "session-id-one-more-octet":
+					if sidLen == 32 {
+						continue // already as long as a session id gets
+					}
+					at, n, add = p+1+sidLen, 1, []byte{0x5a}
+					msg[p] = byte(sidLen + 1)
+				}
+				msg = slices.Insert(msg, at, add...)
+				hl := len(msg) - 4
+				msg[1], msg[2], msg[3] = byte(hl>>16), byte(hl>>8), byte(hl)
+				_ = n
+				jobs = append(jobs, job{mutation{b, ed + "-after-sealing", 0}, tlsref.Record(22, 0x0301, msg), keys})
+			}
+		}
 		// a well-formed DUPLICATE of an extension the hello already has, inserted after sealing (right after the original, and at
 		// the end of the block): a parser that keeps "the first one" must not leave the copy out of what it authenticates
 		for i, e := range built.Outer.Exts {
